@@ -1,6 +1,6 @@
 /-
   TwProofs.Lemmas.PrattRoundTrip — the model's Pratt parser inverts the minimal-parenthesis
-  printer on the fragment "identifiers, binary operators, parentheses" (C01).
+  printer on the fragment "identifiers, prefix - and !, binary operators, the ternary, parentheses" (C01).
 -/
 import TwModel.Parser
 
@@ -46,37 +46,56 @@ namespace Tw
 
 inductive BE where
   | ident (t : Token)
+  | pre (op : Token) (r : BE)
   | bin (op : Token) (l r : BE)
+  | tern (q c : Token) (cnd a b : BE)
 
 def BE.ok : BE → Prop
   | .ident t => t.ty = .IDENT
+  | .pre op r => (op.ty = .SUB ∨ op.ty = .NOT) ∧ r.ok
   | .bin op l r => isBinaryOp op.ty = true ∧ l.ok ∧ r.ok
+  | .tern q c cnd a b => q.ty = .QUESTION ∧ c.ty = .COLON ∧ cnd.ok ∧ a.ok ∧ b.ok
 
 /-- the tree the parser is expected to build -/
 def BE.toExpr : BE → Expr
   | .ident t => .ident t t.lit
+  | .pre op r => .pre op op.lit r.toExpr
   | .bin op l r => .inf op op.lit l.toExpr r.toExpr
+  | .tern q _ cnd a b => .tern q cnd.toExpr a.toExpr b.toExpr
 
 def opPrec (op : Token) : Nat := precedence op.ty
 
 /-- may `e` stand without parentheses where level `m` is required -/
 def BE.tight (m : Nat) : BE → Bool
   | .ident _ => true
+  | .pre _ _ => m ≤ PREFIX
   | .bin op _ _ => m ≤ opPrec op
+  | .tern _ _ _ _ _ => m ≤ TERNARY
 
 /-- the printer: parentheses where the precedence order requires them, and wherever `extra`
     asks for a redundant pair -/
 def showAt (lp rp : Token) (extra : BE → Bool) (m : Nat) : BE → List Token
   | .ident t => if extra (.ident t) then [lp, t, rp] else [t]
+  | .pre op r =>
+    if m ≤ PREFIX && !extra (.pre op r) then [op] ++ showAt lp rp extra (PREFIX + 1) r
+    else [lp] ++ ([op] ++ showAt lp rp extra (PREFIX + 1) r) ++ [rp]
   | .bin op l r =>
     if m ≤ opPrec op && !extra (.bin op l r) then
       showAt lp rp extra (opPrec op) l ++ [op] ++ showAt lp rp extra (opPrec op + 1) r
     else [lp] ++ (showAt lp rp extra (opPrec op) l ++ [op] ++ showAt lp rp extra (opPrec op + 1) r) ++ [rp]
+  | .tern q c cnd a b =>
+    if m ≤ TERNARY && !extra (.tern q c cnd a b) then
+      showAt lp rp extra (TERNARY + 1) cnd ++ [q] ++ showAt lp rp extra (TERNARY + 1) a ++ [c] ++ showAt lp rp extra (LOWEST + 1) b
+    else [lp] ++ (showAt lp rp extra (TERNARY + 1) cnd ++ [q] ++ showAt lp rp extra (TERNARY + 1) a ++ [c] ++
+      showAt lp rp extra (LOWEST + 1) b) ++ [rp]
 
 /-- the bare form (no outer parentheses) -/
 def body (lp rp : Token) (extra : BE → Bool) : BE → List Token
   | .ident t => [t]
+  | .pre op r => [op] ++ showAt lp rp extra (PREFIX + 1) r
   | .bin op l r => showAt lp rp extra (opPrec op) l ++ [op] ++ showAt lp rp extra (opPrec op + 1) r
+  | .tern q c cnd a b =>
+    showAt lp rp extra (TERNARY + 1) cnd ++ [q] ++ showAt lp rp extra (TERNARY + 1) a ++ [c] ++ showAt lp rp extra (LOWEST + 1) b
 
 /-! ### "parses to" with explicit fuel bounds -/
 
@@ -164,6 +183,29 @@ theorem parses_paren {prec : Nat} {lp rp x : Token} {rest k : List Token} {e ex 
   rw [this]
   exact h2 g (by omega) p
 
+theorem parses_pre {prec : Nat} {op : Token} {rest : List Token} {r ex : Expr} {ts' ts'' : List Token}
+    (hop : op.ty = .SUB ∨ op.ty = .NOT) (hrest : NoIll rest.tail) (hne : rest ≠ [])
+    (hin : RParses PREFIX rest r ts') (h : RLoops prec (.pre op op.lit r) ts' ex ts'') :
+    RParses prec (op :: rest) ex ts'' := by
+  obtain ⟨N1, h1⟩ := hin
+  obtain ⟨N2, h2⟩ := h
+  refine ⟨max N1 N2 + 1, fun f hf p => ?_⟩
+  obtain ⟨g, rfl⟩ : ∃ g, f = g + 1 := ⟨f - 1, by omega⟩
+  rw [parseExpression_succ]
+  obtain ⟨r0, rr, hr0⟩ : ∃ r0 rr, rest = r0 :: rr := by
+    cases rest with
+    | nil => exact absurd rfl hne
+    | cons a c => exact ⟨a, c, rfl⟩
+  subst hr0
+  have hnext : (p.withToks (op :: r0 :: rr)).next = p.withToks (r0 :: rr) := withToks_next p op r0 rr hrest
+  have hpe := h1 g (by omega) p
+  have : prefixBody (parseExpression g) (parseExprList g) (parseObjLoop g) (p.withToks (op :: r0 :: rr)) =
+      some (.pre op op.lit r, p.withToks ts') := by
+    unfold prefixBody
+    rcases hop with ho | ho <;> simp only [withToks_cur, ho, hnext, hpe]
+  rw [this]
+  exact h2 g (by omega) p
+
 theorem loops_op {prec : Nat} {l r : Expr} {x op : Token} {rest : List Token} {ts' : List Token} {ex : Expr} {ts'' : List Token}
     (hop : isBinaryOp op.ty = true) (hlt : prec < precedence op.ty) (hrest : NoIll rest) (hne : rest ≠ [])
     (hnb : ∀ t, rest.head? = some t → t.ty ≠ .RBRACES)
@@ -201,6 +243,48 @@ theorem loops_op {prec : Nat} {l r : Expr} {x op : Token} {rest : List Token} {t
   rw [hnext1, hinfix]
   exact h2 g (by omega) p
 
+theorem loops_tern {prec : Nat} {l a bb : Expr} {y q x c : Token} {restA restB : List Token} {ts' : List Token} {ex : Expr}
+    {ts'' : List Token} (hq : q.ty = .QUESTION) (hc : c.ty = .COLON) (hlt : prec < TERNARY)
+    (hA : NoIll restA) (hneA : restA ≠ []) (hB : NoIll restB) (hneB : restB ≠ [])
+    (ha : RParses TERNARY restA a (x :: c :: restB)) (hb : RParses LOWEST restB bb ts')
+    (h : RLoops prec (.tern q l a bb) ts' ex ts'') :
+    RLoops prec l (y :: q :: restA) ex ts'' := by
+  obtain ⟨N1, h1⟩ := ha
+  obtain ⟨N2, h2⟩ := hb
+  obtain ⟨N3, h3⟩ := h
+  refine ⟨max N1 (max N2 N3) + 1, fun f hf p => ?_⟩
+  obtain ⟨g, rfl⟩ : ∃ g, f = g + 1 := ⟨f - 1, by omega⟩
+  rw [prattLoop_succ]
+  obtain ⟨a0, ar, ha0⟩ : ∃ r0 rr, restA = r0 :: rr := by
+    cases restA with
+    | nil => exact absurd rfl hneA
+    | cons u v => exact ⟨u, v, rfl⟩
+  obtain ⟨b0, br, hb0⟩ : ∃ r0 rr, restB = r0 :: rr := by
+    cases restB with
+    | nil => exact absurd rfl hneB
+    | cons u v => exact ⟨u, v, rfl⟩
+  subst ha0 hb0
+  have hstop : ((p.withToks (y :: q :: a0 :: ar)).peekIs .RBRACES || (p.withToks (y :: q :: a0 :: ar)).peekIs .SEMI ||
+      (p.withToks (y :: q :: a0 :: ar)).peekIs .RPAREN || !(decide (prec < (p.withToks (y :: q :: a0 :: ar)).peekPrecedence))) = false := by
+    simp only [PS.peekIs, withToks_peek, PS.peekPrecedence, hq]
+    have : prec < precedence TT.QUESTION := hlt
+    simp [this]
+  rw [if_neg (by rw [hstop]; simp)]
+  rw [if_neg (by simp [withToks_peek, hq, hasInfix])]
+  have hnext1 : (p.withToks (y :: q :: a0 :: ar)).next = p.withToks (q :: a0 :: ar) := withToks_next p y q _ hA
+  have hnext2 : (p.withToks (q :: a0 :: ar)).next = p.withToks (a0 :: ar) := withToks_next p q a0 _ hA.tail
+  have hexp := withToks_expectPeek p x c (b0 :: br) hB
+  rw [hc] at hexp
+  have hnext3 : (p.withToks (c :: b0 :: br)).next = p.withToks (b0 :: br) := withToks_next p c b0 _ hB.tail
+  have hinfix : infixBody (parseExpression g) (parseExprList g) l (p.withToks (q :: a0 :: ar)) =
+      (.tern q l a bb, p.withToks ts') := by
+    unfold infixBody
+    have hnb : isBinaryOp TT.QUESTION = false := rfl
+    simp only [withToks_cur, hq, hnb, Bool.false_eq_true, if_false, beq_self_eq_true, if_true, hnext2,
+      h1 g (by omega) p, hexp, Bool.not_true, hnext3, h2 g (by omega) p]
+  rw [hnext1, hinfix]
+  exact h3 g (by omega) p
+
 end Tw
 
 namespace Tw
@@ -236,7 +320,9 @@ variable (lp rp : Token) (extra : BE → Bool)
 theorem body_ne_nil (e : BE) : body lp rp extra e ≠ [] := by
   cases e with
   | ident t => simp [body]
+  | pre op r => simp [body]
   | bin op l r => simp [body]
+  | tern q c cnd a b => simp [body]
 
 /-- the printer gives the bare form (and it may stand bare), or the bare form in parentheses -/
 theorem showAt_cases (m : Nat) (e : BE) :
@@ -248,7 +334,25 @@ theorem showAt_cases (m : Nat) (e : BE) :
     split
     · right; simp [body]
     · left; exact ⟨rfl, rfl⟩
+  | pre op r =>
+    unfold showAt
+    split
+    · rename_i h
+      left
+      refine ⟨rfl, ?_⟩
+      simp only [Bool.and_eq_true, decide_eq_true_eq] at h
+      simp [BE.tight, h.1]
+    · right; rfl
   | bin op l r =>
+    unfold showAt
+    split
+    · rename_i h
+      left
+      refine ⟨rfl, ?_⟩
+      simp only [Bool.and_eq_true, decide_eq_true_eq] at h
+      simp [BE.tight, h.1]
+    · right; rfl
+  | tern q c cnd a b =>
     unfold showAt
     split
     · rename_i h
@@ -285,6 +389,21 @@ theorem noIll_show : ∀ (e : BE), e.ok → (∀ m, NoIll (showAt lp rp extra m 
         · rw [h, hrp]; decide
       · intro x hx; simp at hx; rw [hx, ht]; decide
     · intro x hx; simp [body] at hx; rw [hx, ht]; decide
+  | .pre op r, hok => by
+    obtain ⟨hop, hr⟩ := hok
+    have ir := noIll_show r hr
+    have hopI : op.ty ≠ .ILLEGAL := by rcases hop with h | h <;> rw [h] <;> decide
+    have hb : NoIll (body lp rp extra (.pre op r)) := by
+      unfold body
+      have h0 : NoIll [op] := fun x hx => by simp at hx; rw [hx]; exact hopI
+      exact h0.append (ir.1 _)
+    refine ⟨fun m => ?_, hb⟩
+    rcases showAt_cases lp rp extra m (.pre op r) with ⟨h, _⟩ | h
+    · rw [h]; exact hb
+    · rw [h]
+      have h1 : NoIll [lp] := fun x hx => by simp at hx; rw [hx, hlp]; decide
+      have h2 : NoIll [rp] := fun x hx => by simp at hx; rw [hx, hrp]; decide
+      exact (h1.append hb).append h2
   | .bin op l r, hok => by
     obtain ⟨hop, hl, hr⟩ := hok
     have il := noIll_show l hl
@@ -300,23 +419,52 @@ theorem noIll_show : ∀ (e : BE), e.ok → (∀ m, NoIll (showAt lp rp extra m 
       have h2 : NoIll [rp] := fun x hx => by simp at hx; rw [hx, hrp]; decide
       exact (h1.append hb).append h2
 
+  | .tern q c cnd a b, hok => by
+    obtain ⟨hq, hc, hcnd, ha, hb'⟩ := hok
+    have ic := noIll_show cnd hcnd
+    have ia := noIll_show a ha
+    have ib := noIll_show b hb'
+    have hqI : NoIll [q] := fun x hx => by simp at hx; rw [hx, hq]; decide
+    have hcI : NoIll [c] := fun x hx => by simp at hx; rw [hx, hc]; decide
+    have hb : NoIll (body lp rp extra (.tern q c cnd a b)) := by
+      unfold body
+      exact (((((ic.1 _).append hqI).append (ia.1 _)).append hcI).append (ib.1 _))
+    refine ⟨fun m => ?_, hb⟩
+    rcases showAt_cases lp rp extra m (.tern q c cnd a b) with ⟨h, _⟩ | h
+    · rw [h]; exact hb
+    · rw [h]
+      have h1 : NoIll [lp] := fun x hx => by simp at hx; rw [hx, hlp]; decide
+      have h2 : NoIll [rp] := fun x hx => by simp at hx; rw [hx, hrp]; decide
+      exact (h1.append hb).append h2
+
 /-- an expression starts with an identifier or an opening parenthesis -/
 theorem head_show : ∀ (e : BE), e.ok →
-    (∀ m t, (showAt lp rp extra m e).head? = some t → t.ty = .IDENT ∨ t.ty = .LPAREN) ∧
-    (∀ t, (body lp rp extra e).head? = some t → t.ty = .IDENT ∨ t.ty = .LPAREN)
+    (∀ m t, (showAt lp rp extra m e).head? = some t → t.ty ≠ .RBRACES) ∧
+    (∀ t, (body lp rp extra e).head? = some t → t.ty ≠ .RBRACES)
   | .ident t, hok => by
     have ht : t.ty = .IDENT := hok
     constructor
     · intro m x hx
       unfold showAt at hx
       split at hx
-      · simp at hx; right; rw [← hx]; exact hlp
-      · simp at hx; left; rw [← hx]; exact ht
-    · intro x hx; simp [body] at hx; left; rw [← hx]; exact ht
+      · simp at hx; rw [← hx, hlp]; decide
+      · simp at hx; rw [← hx, ht]; decide
+    · intro x hx; simp [body] at hx; rw [← hx, ht]; decide
+  | .pre op r, hok => by
+    obtain ⟨hop, hr⟩ := hok
+    have hb : ∀ t, (body lp rp extra (.pre op r)).head? = some t → t.ty ≠ .RBRACES := by
+      intro x hx
+      simp [body] at hx
+      rw [← hx]
+      rcases hop with h | h <;> rw [h] <;> decide
+    refine ⟨fun m x hx => ?_, hb⟩
+    rcases showAt_cases lp rp extra m (.pre op r) with ⟨h, _⟩ | h
+    · rw [h] at hx; exact hb x hx
+    · rw [h] at hx; simp at hx; rw [← hx, hlp]; decide
   | .bin op l r, hok => by
     obtain ⟨hop, hl, hr⟩ := hok
     have il := head_show l hl
-    have hb : ∀ t, (body lp rp extra (.bin op l r)).head? = some t → t.ty = .IDENT ∨ t.ty = .LPAREN := by
+    have hb : ∀ t, (body lp rp extra (.bin op l r)).head? = some t → t.ty ≠ .RBRACES := by
       intro x hx
       simp only [body] at hx
       have hne := showAt_ne_nil lp rp extra (opPrec op) l
@@ -329,7 +477,24 @@ theorem head_show : ∀ (e : BE), e.ok →
     refine ⟨fun m x hx => ?_, hb⟩
     rcases showAt_cases lp rp extra m (.bin op l r) with ⟨h, _⟩ | h
     · rw [h] at hx; exact hb x hx
-    · rw [h] at hx; simp at hx; right; rw [← hx]; exact hlp
+    · rw [h] at hx; simp at hx; rw [← hx, hlp]; decide
+  | .tern q c cnd a b, hok => by
+    obtain ⟨hq, hc, hcnd, ha, hb'⟩ := hok
+    have ic := head_show cnd hcnd
+    have hb : ∀ t, (body lp rp extra (.tern q c cnd a b)).head? = some t → t.ty ≠ .RBRACES := by
+      intro x hx
+      simp only [body] at hx
+      have hne := showAt_ne_nil lp rp extra (TERNARY + 1) cnd
+      cases hs : showAt lp rp extra (TERNARY + 1) cnd with
+      | nil => exact absurd hs hne
+      | cons u v =>
+        rw [hs] at hx
+        simp at hx
+        exact ic.1 (TERNARY + 1) x (by rw [hs]; simp [hx])
+    refine ⟨fun m x hx => ?_, hb⟩
+    rcases showAt_cases lp rp extra m (.tern q c cnd a b) with ⟨h, _⟩ | h
+    · rw [h] at hx; exact hb x hx
+    · rw [h] at hx; simp at hx; rw [← hx, hlp]; decide
 
 end
 end Tw
@@ -339,9 +504,15 @@ namespace Tw
 def StopTop (e : BE) (k : List Token) : Prop :=
   match e with
   | .ident _ => k ≠ []
+  | .pre _ _ => StopR PREFIX k
   | .bin op _ _ => StopR (opPrec op) k
+  | .tern _ _ _ _ _ => StopR LOWEST k
 
 theorem binop_prec_ge {op : Token} (h : isBinaryOp op.ty = true) : 3 ≤ opPrec op := by
+  unfold opPrec
+  cases hty : op.ty <;> rw [hty] at h <;> simp [isBinaryOp] at h <;> decide
+
+theorem binop_prec_le {op : Token} (h : isBinaryOp op.ty = true) : opPrec op ≤ 6 := by
   unfold opPrec
   cases hty : op.ty <;> rw [hty] at h <;> simp [isBinaryOp] at h <;> decide
 
@@ -355,7 +526,7 @@ theorem pratt_main : ∀ (e : BE), e.ok →
     (∀ prec k ex ts', e.tight (prec + 1) = true → StopTop e k → NoIll k →
         RLoops prec e.toExpr (lastTok (body lp rp extra e) :: k) ex ts' →
         RParses prec (body lp rp extra e ++ k) ex ts') ∧
-    (∀ prec k, StopR prec k → NoIll k →
+    (∀ prec k, prec ≤ PREFIX → StopR prec k → NoIll k →
         RParses prec (showAt lp rp extra (prec + 1) e ++ k) e.toExpr (lastTok (showAt lp rp extra (prec + 1) e) :: k))
   | .ident t, hok => by
     have ht : t.ty = .IDENT := hok
@@ -366,7 +537,7 @@ theorem pratt_main : ∀ (e : BE), e.ok →
       simp only [body, List.singleton_append]
       exact parses_ident ht (by simpa [body, lastTok, BE.toExpr] using hl)
     refine ⟨P, ?_⟩
-    intro prec k hs hk
+    intro prec k hple hs hk
     have hkne : k ≠ [] := by cases k with | nil => exact absurd hs (by simp [StopR]) | cons _ _ => simp
     rcases showAt_cases lp rp extra (prec + 1) (.ident t) with ⟨h, _⟩ | h
     · rw [h]
@@ -381,6 +552,48 @@ theorem pratt_main : ∀ (e : BE), e.ok →
         · exact hk x h
       refine parses_paren (x := t) hlp hrp hrk hk ?_ (loops_stop hs) (by simp)
       exact parses_ident ht (loops_stop (Or.inr (Or.inr (Or.inl hrp))))
+  | .pre op r, hok => by
+    obtain ⟨hop, hr⟩ := hok
+    have ihr := pratt_main r hr
+    have hopI : op.ty ≠ .ILLEGAL := by rcases hop with h | h <;> rw [h] <;> decide
+    have hrpIll : ∀ k, NoIll k → NoIll (rp :: k) := fun k hk x hx => by
+      rcases List.mem_cons.mp hx with h | h
+      · rw [h, hrp]; decide
+      · exact hk x h
+    have hshowR := showAt_ne_nil lp rp extra (PREFIX + 1) r
+    have hbodyLast : lastTok (body lp rp extra (.pre op r)) = lastTok (showAt lp rp extra (PREFIX + 1) r) := by
+      simp only [body]
+      exact lastTok_append _ _ hshowR
+    have P : ∀ prec k ex ts', (BE.pre op r).tight (prec + 1) = true → StopTop (.pre op r) k → NoIll k →
+        RLoops prec (BE.pre op r).toExpr (lastTok (body lp rp extra (.pre op r)) :: k) ex ts' →
+        RParses prec (body lp rp extra (.pre op r) ++ k) ex ts' := by
+      intro prec k ex ts' _ hst hk hloopE
+      have hR := ihr.2 PREFIX k (Nat.le_refl _) hst hk
+      rw [hbodyLast] at hloopE
+      simp only [body, List.append_assoc, List.singleton_append]
+      refine parses_pre hop ?_ (by simp [hshowR]) hR hloopE
+      have : NoIll (showAt lp rp extra (PREFIX + 1) r ++ k) := ((noIll_show lp rp extra hlp hrp r hr).1 _).append hk
+      intro x hx
+      exact this x (List.mem_of_mem_tail hx)
+    refine ⟨P, ?_⟩
+    intro prec k hple hs hk
+    rcases showAt_cases lp rp extra (prec + 1) (.pre op r) with ⟨h, ht⟩ | h
+    · rw [h]
+      exact P prec k _ _ ht (stopR_mono hs hple) hk (loops_stop hs)
+    · rw [h]
+      have hl2 : lastTok ([lp] ++ body lp rp extra (.pre op r) ++ [rp]) = rp := lastTok_append_singleton _ _
+      rw [hl2]
+      simp only [List.append_assoc, List.cons_append, List.nil_append, List.singleton_append]
+      refine parses_paren (x := lastTok (body lp rp extra (.pre op r))) hlp hrp ?_ hk ?_ (loops_stop hs) (by simp [body_ne_nil])
+      · have : NoIll (body lp rp extra (.pre op r) ++ rp :: k) :=
+          ((noIll_show lp rp extra hlp hrp (.pre op r) ⟨hop, hr⟩).2).append (hrpIll _ hk)
+        intro x hx
+        exact this x (List.mem_of_mem_tail hx)
+      · refine P LOWEST (rp :: k) _ _ ?_ (Or.inr (Or.inr (Or.inl hrp))) (hrpIll _ hk)
+          (loops_stop (Or.inr (Or.inr (Or.inl hrp))))
+        simp only [BE.tight, decide_eq_true_eq]
+        unfold LOWEST PREFIX
+        omega
   | .bin op l r, hok => by
     obtain ⟨hop, hl, hr⟩ := hok
     have ihl := pratt_main l hl
@@ -404,7 +617,7 @@ theorem pratt_main : ∀ (e : BE), e.ok →
       intro prec k ex ts' ht hst hk hloopE
       have hq : prec < opPrec op := by simp [BE.tight] at ht; omega
       -- the right operand
-      have hR := ihr.2 (opPrec op) k hst hk
+      have hR := ihr.2 (opPrec op) k (by have := binop_prec_le hop; unfold PREFIX; omega) hst hk
       rw [hbodyLast] at hloopE
       have hrestIll : NoIll (showAt lp rp extra (opPrec op + 1) r ++ k) :=
         ((noIll_show lp rp extra hlp hrp r hr).1 _).append hk
@@ -415,7 +628,7 @@ theorem pratt_main : ∀ (e : BE), e.ok →
           cases hs : showAt lp rp extra (opPrec op + 1) r with
           | nil => exact absurd hs hshowR
           | cons a c => rw [hs] at ht; simpa using ht
-        rcases (head_show lp rp extra hlp hrp r hr).1 _ t this with h | h <;> rw [h] <;> decide
+        exact (head_show lp rp extra hlp hrp r hr).1 _ t this
       have hloopL : ∀ x, RLoops prec l.toExpr (x :: op :: (showAt lp rp extra (opPrec op + 1) r ++ k)) ex ts' :=
         fun x => loops_op hop hq hrestIll hrestNe hnb hR hloopE
       simp only [body, List.append_assoc, List.singleton_append]
@@ -425,12 +638,20 @@ theorem pratt_main : ∀ (e : BE), e.ok →
         refine ihl.1 prec _ ex ts' ?_ ?_ (hopIll _ hrestIll) (hloopL _)
         · cases l with
           | ident _ => rfl
+          | pre _ _ =>
+            have := binop_prec_le hop
+            simp only [BE.tight, decide_eq_true_eq]; unfold PREFIX; omega
           | bin o2 _ _ => simp [BE.tight] at htl ⊢; omega
+          | tern _ _ _ _ _ => simp only [BE.tight, decide_eq_true_eq] at htl; unfold TERNARY at htl; omega
         · cases l with
           | ident _ => simp [StopTop]
+          | pre _ _ =>
+            have := binop_prec_le hop
+            exact Or.inr (Or.inr (Or.inr (by show precedence op.ty ≤ PREFIX; unfold opPrec at this; unfold PREFIX; omega)))
           | bin o2 _ _ =>
             simp [BE.tight] at htl
             exact Or.inr (Or.inr (Or.inr htl))
+          | tern _ _ _ _ _ => simp only [BE.tight, decide_eq_true_eq] at htl; unfold TERNARY at htl; omega
       · rw [hs]
         simp only [List.append_assoc, List.cons_append, List.nil_append]
         refine parses_paren (x := lastTok (body lp rp extra l)) hlp hrp ?_ (hopIll _ hrestIll) ?_ (hloopL rp) (by simp [body_ne_nil])
@@ -445,16 +666,20 @@ theorem pratt_main : ∀ (e : BE), e.ok →
           refine ihl.1 LOWEST _ _ _ ?_ ?_ (hrpIll _ (hopIll _ hrestIll)) (loops_stop (hstopRp _))
           · cases l with
             | ident _ => rfl
+            | pre _ _ => simp only [BE.tight, decide_eq_true_eq]; unfold LOWEST PREFIX; omega
             | bin o2 _ _ =>
               have := binop_prec_ge hl.1
               simp only [BE.tight, decide_eq_true_eq]
               unfold LOWEST
               omega
+            | tern _ _ _ _ _ => simp only [BE.tight, decide_eq_true_eq]; unfold LOWEST TERNARY; omega
           · cases l with
             | ident _ => simp [StopTop]
+            | pre _ _ => exact hstopRp _
             | bin o2 _ _ => exact hstopRp _
+            | tern _ _ _ _ _ => exact hstopRp _
     refine ⟨P, ?_⟩
-    intro prec k hs hk
+    intro prec k hple hs hk
     rcases showAt_cases lp rp extra (prec + 1) (.bin op l r) with ⟨h, ht⟩ | h
     · rw [h]
       have hq : prec + 1 ≤ opPrec op := by simpa [BE.tight] using ht
@@ -474,6 +699,113 @@ theorem pratt_main : ∀ (e : BE), e.ok →
         unfold LOWEST
         omega
 
+  | .tern q c cnd a b, hok => by
+    obtain ⟨hq, hc, hcnd, ha, hb'⟩ := hok
+    have ihc := pratt_main cnd hcnd
+    have iha := pratt_main a ha
+    have ihb := pratt_main b hb'
+    have hrpIll : ∀ k, NoIll k → NoIll (rp :: k) := fun k hk x hx => by
+      rcases List.mem_cons.mp hx with h | h
+      · rw [h, hrp]; decide
+      · exact hk x h
+    have hqIll : ∀ k, NoIll k → NoIll (q :: k) := fun k hk x hx => by
+      rcases List.mem_cons.mp hx with h | h
+      · rw [h, hq]; decide
+      · exact hk x h
+    have hcIll : ∀ k, NoIll k → NoIll (c :: k) := fun k hk x hx => by
+      rcases List.mem_cons.mp hx with h | h
+      · rw [h, hc]; decide
+      · exact hk x h
+    have hshowB := showAt_ne_nil lp rp extra (LOWEST + 1) b
+    have hshowA := showAt_ne_nil lp rp extra (TERNARY + 1) a
+    have hbodyLast : lastTok (body lp rp extra (.tern q c cnd a b)) = lastTok (showAt lp rp extra (LOWEST + 1) b) := by
+      simp only [body]
+      exact lastTok_append _ _ hshowB
+    have P : ∀ prec k ex ts', (BE.tern q c cnd a b).tight (prec + 1) = true → StopTop (.tern q c cnd a b) k → NoIll k →
+        RLoops prec (BE.tern q c cnd a b).toExpr (lastTok (body lp rp extra (.tern q c cnd a b)) :: k) ex ts' →
+        RParses prec (body lp rp extra (.tern q c cnd a b) ++ k) ex ts' := by
+      intro prec k ex ts' ht hst hk hloopE
+      have hq2 : prec < TERNARY := by simp only [BE.tight, decide_eq_true_eq] at ht; omega
+      have hB := ihb.2 LOWEST k (by decide) hst hk
+      have hBI : NoIll (showAt lp rp extra (LOWEST + 1) b ++ k) := ((noIll_show lp rp extra hlp hrp b hb').1 _).append hk
+      have hcStop : StopR TERNARY (c :: (showAt lp rp extra (LOWEST + 1) b ++ k)) :=
+        Or.inr (Or.inr (Or.inr (by rw [hc]; decide)))
+      have hA := iha.2 TERNARY (c :: (showAt lp rp extra (LOWEST + 1) b ++ k)) (by decide) hcStop (hcIll _ hBI)
+      have hAI : NoIll (showAt lp rp extra (TERNARY + 1) a ++ c :: (showAt lp rp extra (LOWEST + 1) b ++ k)) :=
+        ((noIll_show lp rp extra hlp hrp a ha).1 _).append (hcIll _ hBI)
+      rw [hbodyLast] at hloopE
+      have hloopC : ∀ y, RLoops prec cnd.toExpr
+          (y :: q :: (showAt lp rp extra (TERNARY + 1) a ++ c :: (showAt lp rp extra (LOWEST + 1) b ++ k))) ex ts' :=
+        fun y => loops_tern hq hc hq2 hAI (by simp [hshowA]) hBI (by simp [hshowB]) hA hB hloopE
+      simp only [body, List.append_assoc, List.singleton_append]
+      rcases showAt_cases lp rp extra (TERNARY + 1) cnd with ⟨hs, htl⟩ | hs
+      · rw [hs]
+        refine ihc.1 prec _ ex ts' ?_ ?_ (hqIll _ hAI) (hloopC _)
+        · cases cnd with
+          | ident _ => rfl
+          | pre _ _ => simp only [BE.tight, decide_eq_true_eq]; unfold TERNARY at hq2; unfold PREFIX; omega
+          | bin o2 _ _ =>
+            simp only [BE.tight, decide_eq_true_eq] at htl ⊢; unfold TERNARY at hq2 htl; omega
+          | tern _ _ _ _ _ => simp only [BE.tight, decide_eq_true_eq] at htl; omega
+        · cases cnd with
+          | ident _ => simp [StopTop]
+          | pre _ _ => exact Or.inr (Or.inr (Or.inr (by rw [hq]; decide)))
+          | bin o2 _ _ =>
+            simp only [BE.tight, decide_eq_true_eq] at htl
+            exact Or.inr (Or.inr (Or.inr (by rw [hq]; show TERNARY ≤ opPrec o2; omega)))
+          | tern _ _ _ _ _ => simp only [BE.tight, decide_eq_true_eq] at htl; omega
+      · rw [hs]
+        simp only [List.append_assoc, List.cons_append, List.nil_append]
+        refine parses_paren (x := lastTok (body lp rp extra cnd)) hlp hrp ?_ (hqIll _ hAI) ?_ (hloopC rp) (by simp [body_ne_nil])
+        · have : NoIll (body lp rp extra cnd ++ rp :: q :: (showAt lp rp extra (TERNARY + 1) a ++ c :: (showAt lp rp extra (LOWEST + 1) b ++ k))) :=
+            ((noIll_show lp rp extra hlp hrp cnd hcnd).2).append (hrpIll _ (hqIll _ hAI))
+          intro x hx
+          exact this x (List.mem_of_mem_tail hx)
+        · have hstopRp : ∀ n, StopR n (rp :: q :: (showAt lp rp extra (TERNARY + 1) a ++ c :: (showAt lp rp extra (LOWEST + 1) b ++ k))) :=
+            fun n => Or.inr (Or.inr (Or.inl hrp))
+          refine ihc.1 LOWEST _ _ _ ?_ ?_ (hrpIll _ (hqIll _ hAI)) (loops_stop (hstopRp _))
+          · cases cnd with
+            | ident _ => rfl
+            | pre _ _ => simp only [BE.tight, decide_eq_true_eq]; unfold LOWEST PREFIX; omega
+            | bin o2 _ _ =>
+              have := binop_prec_ge hcnd.1
+              simp only [BE.tight, decide_eq_true_eq]; unfold LOWEST; omega
+            | tern _ _ _ _ _ => simp only [BE.tight, decide_eq_true_eq]; unfold LOWEST TERNARY; omega
+          · cases cnd with
+            | ident _ => simp [StopTop]
+            | pre _ _ => exact hstopRp _
+            | bin o2 _ _ => exact hstopRp _
+            | tern _ _ _ _ _ => exact hstopRp _
+    refine ⟨P, ?_⟩
+    intro prec k hple hs hk
+    rcases showAt_cases lp rp extra (prec + 1) (.tern q c cnd a b) with ⟨h, ht⟩ | h
+    · rw [h]
+      have hq2 : prec + 1 ≤ TERNARY := by simpa [BE.tight] using ht
+      refine P prec k _ _ ht ?_ hk (loops_stop hs)
+      -- the loop at the (lower) level of the caller stops here, so the one at LOWEST does too
+      cases k with
+      | nil => exact hs
+      | cons t0 r0 =>
+        rcases hs with h1 | h1 | h1 | h1
+        · exact Or.inl h1
+        · exact Or.inr (Or.inl h1)
+        · exact Or.inr (Or.inr (Or.inl h1))
+        · exact Or.inr (Or.inr (Or.inr (by unfold TERNARY at hq2; unfold LOWEST; omega)))
+    · rw [h]
+      have hl2 : lastTok ([lp] ++ body lp rp extra (.tern q c cnd a b) ++ [rp]) = rp := lastTok_append_singleton _ _
+      rw [hl2]
+      simp only [List.append_assoc, List.cons_append, List.nil_append, List.singleton_append]
+      refine parses_paren (x := lastTok (body lp rp extra (.tern q c cnd a b))) hlp hrp ?_ hk ?_ (loops_stop hs) (by simp [body_ne_nil])
+      · have : NoIll (body lp rp extra (.tern q c cnd a b) ++ rp :: k) :=
+          ((noIll_show lp rp extra hlp hrp (.tern q c cnd a b) ⟨hq, hc, hcnd, ha, hb'⟩).2).append (hrpIll _ hk)
+        intro x hx
+        exact this x (List.mem_of_mem_tail hx)
+      · refine P LOWEST (rp :: k) _ _ ?_ (Or.inr (Or.inr (Or.inl hrp))) (hrpIll _ hk)
+          (loops_stop (Or.inr (Or.inr (Or.inl hrp))))
+        simp only [BE.tight, decide_eq_true_eq]
+        unfold LOWEST TERNARY
+        omega
+
 end
 end Tw
 
@@ -489,7 +821,7 @@ theorem parse_print (lp rp : Token) (hlp : lp.ty = .LPAREN) (hrp : rp.ty = .RPAR
     (e : BE) (hok : e.ok) (k : List Token) (hk : NoIll k) (hstop : StopR LOWEST k) :
     RParses LOWEST (showAt lp rp extra (LOWEST + 1) e ++ k) e.toExpr
       (lastTok (showAt lp rp extra (LOWEST + 1) e) :: k) :=
-  (pratt_main lp rp extra hlp hrp e hok).2 LOWEST k hstop hk
+  (pratt_main lp rp extra hlp hrp e hok).2 LOWEST k (by decide) hstop hk
 
 /-- two printings of one tree that differ only in redundant parentheses parse to the same tree -/
 theorem redundant_parentheses_irrelevant (lp rp : Token) (hlp : lp.ty = .LPAREN) (hrp : rp.ty = .RPAREN)
@@ -514,5 +846,16 @@ theorem print_injective (lp rp : Token) (hlp : lp.ty = .LPAREN) (hrp : rp.ty = .
   rw [heq] at a
   rw [a] at c
   exact (Prod.mk.inj c).1
+
+end Tw
+
+namespace Tw
+
+/-- the tokens carry their canonical literals (what the lexer produces for these types) -/
+def BE.canon : BE → Prop
+  | .ident _ => True
+  | .pre op r => (op.ty = .SUB → op.lit = b "-") ∧ (op.ty = .NOT → op.lit = b "!") ∧ r.canon
+  | .bin _ l r => l.canon ∧ r.canon
+  | .tern _ _ cnd a bb => cnd.canon ∧ a.canon ∧ bb.canon
 
 end Tw
